@@ -104,8 +104,8 @@ def reuse_programs():
     # a wire-merged operand next to one of its own members
     yield "dag15", ('Signal a = ("signal-A", 4);\nSignal b = ("signal-A", 5);\nSignal r = ((a + b) + a) * 3;\n')
     # the same comparison in both spellings (CSE must not identify x > c with c <= x)
-    yield "dag16", ('Signal x = ("signal-A", 6);\nSignal p = (x > 100) : 10;\nSignal q = (100 <= x) : 10;\n'
-                    'Signal r = (x < 7) + (7 >= x) + (x <= 7) + (7 > x);\n')
+    yield "dag16", ('Signal x = ("signal-A", 6);\nSignal y = ("signal-B", 4);\nSignal p = (x > 100) : y;\nSignal q = (100 <= x) : y;\n'
+                    'Signal r = (x < 7) + (7 >= x) + (x <= 7) + (7 > x);\nSignal u = ((x < y) : 5) + ((y >= x) : 5);\n')
     yield "dag15b", ('Signal a = ("signal-A", 4);\nSignal b = ("signal-A", 5);\nSignal r = (a + b) - a;\nSignal q = (a + b) * b;\n')
 
 
@@ -264,6 +264,17 @@ def c06_scope(tier):
     P.append(("two-chests", CH + 'Entity c2 = place("steel-chest", 14, 10, {read_contents: 1});\nEntity l = place("small-lamp", 0, 0);\n'
               'l.enable = ch.output["iron-plate"] + c2.output["iron-plate"] > 9;\n'))
     P.append(("chest-any", CH + 'Bundle c = ch.output;\nEntity l = place("small-lamp", 0, 0);\nl.enable = any(c) > 100;\n'))
+    # balanced loader: one merge of all chests feeds an average; per chest a merge of average and chest
+    for n, pad in ((2, 0), (3, 5)) if tier == "quick" else ((2, 0), (2, 5), (3, 0), (3, 5), (4, 0), (5, 3)):
+        L = [f'Signal pad{k} = ("signal-P", {k + 1});' for k in range(pad)]
+        L += [f'Entity chest{k} = place("steel-chest", {k}, 0);' for k in range(n)]
+        L.append("Bundle total = {" + ", ".join(f"chest{k}.output" for k in range(n)) + "};")
+        L.append(f"Bundle neg_avg = total / -{n};")
+        L += [f"Bundle diff{k} = {{neg_avg, chest{k}.output}};" for k in range(n)]
+        for k in range(n):
+            L.append(f'Entity load{k} = place("fast-inserter", {k}, -1, {{direction: 0}});')
+            L.append(f"load{k}.enable = all(diff{k}) < 0;")
+        P.append((f"balanced-loader{n}-pad{pad}", "\n".join(L) + "\n"))
     return P
 
 
@@ -445,6 +456,11 @@ def c03_scope(tier):
               'n.write(v | "signal-N", when=en && (g > 0));\nSignal out = m.read();\nSignal out2 = n.read();\n', {"v": [5, 9], "c": [0, 1], "g": [0, 1]}))
     P.append(("dup-comparison-earlier", V + C + M + 'Signal armed = c > 0;\nm.write(v | "signal-M", when=c > 0);\nSignal out = m.read();\nSignal a2 = armed + 0;\n', {"v": vp, "c": cp}))
     P.append(("enable-used-in-data", V + C + M + 'Signal en = c > 0;\nm.write((v + en) | "signal-M", when=en);\nSignal out = m.read();\n', {"v": vp, "c": cp}))
+    # a cell declared in a function body: every call owns its own cell (call = substitution)
+    P.append(("cell-in-function", 'func keep(Signal d, Signal en) {\n  Memory m: "signal-M";\n  m.write(d | "signal-M", when=en > 0);\n  return m.read();\n}\n'
+              + V + C + 'Signal w = ("signal-D", 7);\nSignal out = keep(v, c);\nSignal out2 = keep(w, c);\n', {"v": [5, 9], "c": [0, 1], "w": [7, -2]}))
+    P.append(("cell-in-loop", V + C + 'for i in 0..2 {\n  Memory m: "signal-M";\n  m.write((v + i) | "signal-M", when=c > i);\n'
+              '  Entity l = place("small-lamp", i * 2, 0);\n  l.enable = m.read() > 6;\n}\n', {"v": [5, 9], "c": [0, 1, 2]}))
     return P
 
 
